@@ -36,12 +36,22 @@ class Lock:
         self.f.close()
 
 
-def sh(cmd, cwd=None, timeout=None, env=None, inp=None, check=False):
+COQ_MEM_LIMIT = int(os.environ.get('VERIF_COQ_MEM_GB', '20')) << 30   # a proof script that needs more than this is broken
+
+
+def _limit_as(nbytes):
+    def f():
+        import resource
+        resource.setrlimit(resource.RLIMIT_AS, (nbytes, nbytes))
+    return f
+
+
+def sh(cmd, cwd=None, timeout=None, env=None, inp=None, check=False, mem=None):
     e = dict(os.environ)
     if env:
         e.update(env)
     p = subprocess.run(cmd, cwd=cwd, shell=isinstance(cmd, str), capture_output=True,
-                       timeout=timeout, env=e, input=inp)
+                       timeout=timeout, env=e, input=inp, preexec_fn=_limit_as(mem) if mem else None)
     if check and p.returncode != 0:
         raise RuntimeError('command failed: %s\n%s\n%s' % (cmd, p.stdout.decode(errors='replace')[-3000:],
                                                         p.stderr.decode(errors='replace')[-3000:]))
@@ -153,7 +163,7 @@ def coq_make(targets, timeout=1500):
     """make -k the given .vo targets; returns (ok, log)"""
     with Lock('coq'):
         coq_project()
-        p = sh(['make', '-k', '-j%d' % NCPU] + targets, cwd=COQ, timeout=timeout)
+        p = sh(['make', '-k', '-j%d' % NCPU] + targets, cwd=COQ, timeout=timeout, mem=COQ_MEM_LIMIT)
     log = (p.stdout + p.stderr).decode(errors='replace')
     return p.returncode == 0, log
 
@@ -191,13 +201,20 @@ def coq_props(prop_dir, extra_files=()):
             src = open(props_v).read().split('\n')
             head = '\n'.join(src[:min(perr) - 1])
             res['discharged'] = len(theorem_names_txt(head))
+            # a theorem whose statement is before the error line but whose Qed is not: that one is failing
+            hs = re.sub(r'\(\*.*?\*\)', '', head, flags=re.S)
+            last = None
+            for last in re.finditer(r'^\s*(?:Theorem|Lemma|Corollary)\s+[A-Za-z0-9_\']+', hs, flags=re.M):
+                pass
+            if last is not None and not re.search(r'\b(Qed|Defined)\s*\.', hs[last.end():]):
+                res['discharged'] -= 1
             bad = [n for n in theorem_names(props_v)][res['discharged']:res['discharged'] + 1]
             res['failing'] += bad
         return res
     # Print Assumptions: rerun coqc on Props.v alone, capturing stdout
     with Lock('coq'):
         p = sh(['coqc', '-Q', '.', 'CppcmsV', '-w', '-notation-overridden,-deprecated,-ambiguous-paths',
-                os.path.join(prop_dir, 'Props.v')], cwd=COQ, timeout=600)
+                os.path.join(prop_dir, 'Props.v')], cwd=COQ, timeout=600, mem=COQ_MEM_LIMIT)
     out = p.stdout.decode(errors='replace')
     if p.returncode != 0:
         res['failing'] = ['Props.v recompile failed']
